@@ -22,3 +22,28 @@ pub open spec fn num_end(p: Seq<Option<u8>>) -> int {
 }
 // a number with a fraction or an exponent is a double, everything else an integer (C19)
 pub open spec fn num_is_double(p: Seq<Option<u8>>) -> bool { num_has_frac(p) || num_has_exp(p) }
+
+// value = false / null / true / object / array / number / string : the byte that starts each alternative
+pub open spec fn starts_value(b: u8) -> bool {
+    b == 0x74u8 || b == 0x66u8 || b == 0x6eu8 || b == 0x22u8 || b == 0x2du8 || is_digit(b) || b == 0x5bu8 || b == 0x7bu8
+}
+// p[i .. i+w.len()) are exactly the delivered bytes w
+pub open spec fn bytes_at(p: Seq<Option<u8>>, i: int, w: Seq<u8>) -> bool {
+    i + w.len() <= p.len() && forall|j: int| i <= j < i + w.len() ==> (#[trigger] p[j]) == Some(w[j - i])
+}
+
+// the text handed to str::parse: the token with `e` spelled `E` and a `+` exponent sign dropped (both are ignored by
+// f64::from_str); digits, `-` and `.` verbatim
+pub open spec fn seg(p: Seq<Option<u8>>, a: int, b: int) -> Seq<u8> { if 0 <= a <= b <= p.len() { unwrap_all(p.subrange(a, b)) } else { Seq::empty() } }
+pub open spec fn num_text_int(p: Seq<Option<u8>>) -> Seq<u8> {
+    (if num_sign(p) == 1 { seq![0x2du8] } else { Seq::<u8>::empty() }).add(seg(p, num_sign(p), num_int_end(p)))
+}
+pub open spec fn num_text_frac(p: Seq<Option<u8>>) -> Seq<u8> {
+    if num_has_frac(p) { num_text_int(p).push(0x2eu8).add(seg(p, num_int_end(p) + 1, num_frac_end(p))) } else { num_text_int(p) }
+}
+pub open spec fn num_text(p: Seq<Option<u8>>) -> Seq<u8> {
+    if num_has_exp(p) {
+        let t = num_text_frac(p).push(0x45u8);
+        (if at(p, num_frac_end(p) + 1) == Some(0x2du8) { t.push(0x2du8) } else { t }).add(seg(p, num_exp_digits_at(p), num_end(p)))
+    } else { num_text_frac(p) }
+}
